@@ -69,7 +69,7 @@ def row_for(src, i, fields):
             row[fn] = [1.5, 2.25, -0.5][i % 3]
         elif ft == 'late':
             # null throughout the inference sample, values only much later
-            row[fn] = None if i < 700 else 'late-%d' % (i % 3)
+            row[fn] = None if (i < 700 or fn == 'znever') else 'late-%d' % (i % 3)
     return row
 
 
@@ -88,8 +88,9 @@ def run_case(case):
         fields = [['id', 'integer'], ['n', 'integer'], ['s', 'string'], ['m', 'integer']]
         if rng.random() < 0.5:
             fields.append(['q', 'number'])
-        if rng.random() < 0.4:
-            fields.append(['zlate', 'late'])
+        if rng.random() < 0.5:
+            # a column that is null throughout the inference sample: later (zlate) or for the whole stream (znever)
+            fields.append([rng.choice(['zlate', 'znever']), 'late'])
         tables.append({'name': 'r%d' % s, 'fields': fields, 'rows': [row_for(s, 0, fields)],
                        'kind': rng.choice(['iter', 'load'])})
     if case['family'] == 'single' and case['op'] == 'dump_format':
